@@ -229,6 +229,176 @@ def eval_force(cases):
     return outs
 
 
+
+# ---- invocation spellings of the same effective settings ---------------------------------------------------
+# A spelling says where each setting comes from in one run; the *effective* output-affecting configuration
+# (library, visualize_deps, the directories named) is the same for every run of a case.
+#   src: "cfile" (typegen.json; CLI passes -c) | "tauri" (tauri.conf.json plugins.typegen) | "flags" (no file, CLI only)
+#   p / o: None (as in the file: ./src-tauri, ./gen) | "rel" (./x) | "bare" (x) | "abs" (absolute) - CLI: -p/-o flag,
+#          build path: spelled that way inside the file
+#   force (CLI: --force; build: force:true in the file), verbose (--verbose), vflag (-v <library> repeated on the flag),
+#   vizflag (visualize_deps through --visualize-deps instead of the file)
+
+def SP(src="cfile", p=None, o=None, force=False, verbose=False, vflag=False, vizflag=False, forcefile=None):
+    return {"src": src, "p": p, "o": o, "force": force, "verbose": verbose, "vflag": vflag, "vizflag": vizflag,
+            "forcefile": forcefile}
+
+
+def spell(kind, name, root):
+    return {"rel": "./" + name, "bare": name, "abs": os.path.join(root, name), None: "./" + name}[kind]
+
+
+def run_spelling(case):
+    desc = C.base_project()
+    desc["cfg"]["validation_library"] = case["mode"]
+    desc["cfg"]["visualize_deps"] = bool(case["viz"])
+    obs, steps, projs = [], [], []
+    with vlib.Sandbox("c14s") as sb:
+        w = C.World(sb, case["entry"])
+        w.set_desc(desc)
+        for sp in case["seq"]:
+            psp, osp = spell(sp["p"], C.SRC, sb.root), spell(sp["o"], C.OUT, sb.root)
+            cfg = dict(desc["cfg"])
+            cfg["force"] = sp.get("forcefile")
+            if case["entry"] == "build" and sp["force"]:
+                cfg["force"] = True
+            if sp["vizflag"]:
+                cfg["visualize_deps"] = False            # the flag supplies it
+            # configuration file(s) of this run
+            for n in ("typegen.json", "tauri.conf.json"):
+                if os.path.exists(sb.path(n)):
+                    os.remove(sb.path(n))
+            in_file = case["entry"] == "build"           # the build entry has no flags: spell the paths in the file
+            if sp["src"] == "cfile":
+                txt = C.render_cfg(cfg)
+                if in_file:
+                    txt = txt.replace('"./%s"' % C.SRC, json.dumps(psp)).replace('"./%s"' % C.OUT, json.dumps(osp))
+                sb.write("typegen.json", txt)
+            elif sp["src"] == "tauri":
+                txt = C.render_tauri_conf(cfg, with_cases=False)
+                if in_file:
+                    txt = txt.replace('"./%s"' % C.SRC, json.dumps(psp)).replace('"./%s"' % C.OUT, json.dumps(osp))
+                sb.write("tauri.conf.json", txt)
+            args = None
+            if case["entry"] == "cli":
+                args = ["-c", "typegen.json"] if sp["src"] == "cfile" else []
+                if sp["p"] is not None or sp["src"] == "flags":
+                    args += ["-p", psp]
+                if sp["o"] is not None or sp["src"] == "flags":
+                    args += ["-o", osp]
+                if sp["vflag"] or sp["src"] == "flags":
+                    args += ["-v", case["mode"]]
+                if case["viz"] and (sp["vizflag"] or sp["src"] == "flags"):
+                    args += ["--visualize-deps"]
+                if sp["verbose"]:
+                    args += ["--verbose"]
+            r = w.run(force=(sp["force"] and case["entry"] == "cli"), args=args)
+            eff = copy.deepcopy(desc)
+            eff["cfg"]["force"] = cfg["force"]
+            expected = [n for n in C.reference(desc, case["entry"])["files"]] + [C.CACHE]
+            mi, di, _ = C.stale_files(w, desc) if r["decision"] in ("regenerated", "up_to_date") else ([], [], [])
+            # graph files print the file paths as spelled: compare them only under the reference spelling
+            di = [n for n in di if not (n.startswith("dependency-graph") and psp != "./" + C.SRC)]
+            obs.append({"decision": r["decision"], "rewritten": r["rewritten"], "all_rewritten": all(n in r["rewritten"] for n in expected),
+                        "missing": mi, "different": di, "args": args, "text": r["text"][-200:]})
+            proj = C.sx_project(desc, src=psp)
+            projs.append(proj)
+            steps.append(["set", proj, C.sx_cfg(eff["cfg"])])
+            steps.append(["run", [[0], []], bool(sp["force"] and case["entry"] == "cli"), None])
+    return sx([C.sx_project(desc), C.sx_cfg(desc["cfg"]), steps]), obs, projs, desc
+
+
+def eval_spelling(cases):
+    res = vlib.pmap(run_spelling, cases)
+    traces = vlib.run_runner("c14-trace", [r[0] for r in res])
+    q_path, q_idem, q_force, idx = [], [], [], []
+    for i, (_, obs, projs, d) in enumerate(res):
+        last = 0
+        for k, o in enumerate(obs):
+            dec = o["decision"] if o["decision"] in ("no_commands", "up_to_date", "regenerated", "failed") else "failed"
+            q_path.append(sx([[[0], []], projs[last], projs[k], C.sx_cfg(d["cfg"])]))
+            q_idem.append(sx([dec, len(o["rewritten"])]))
+            q_force.append(sx([dec, o["all_rewritten"]]))
+            idx.append((i, k))
+            if o["decision"] == "regenerated":
+                last = k
+    path = dict(zip(idx, vlib.run_runner("c14-path", q_path)))
+    idem = dict(zip(idx, vlib.run_runner("c14-idem", q_idem)))
+    forc = dict(zip(idx, vlib.run_runner("c14-force", q_force)))
+    outs = []
+    for i, (case, (_, obs, projs, d), tr) in enumerate(zip(cases, res, traces)):
+        corr = ok = True
+        kf = None
+        unknown = False
+        detail = None
+        for k, (o, sp, mo) in enumerate(zip(obs, case["seq"], tr)):
+            forced = sp["force"] or bool(sp.get("forcefile"))
+            step_corr = o["decision"] == mo[0]
+            if k == 0 or forced:
+                step_ok = forc[(i, k)] == "true" and not o["missing"] and not o["different"]
+            else:
+                step_ok = idem[(i, k)] == "true"
+                if not step_ok:
+                    if path[(i, k)] == "true" and o["decision"] == "regenerated":
+                        kf = kf or "C14-3"
+                    else:
+                        unknown = True
+            if (not step_corr or not step_ok) and detail is None:
+                detail = {"step": k, "impl": o, "model": mo[0]}
+            corr &= step_corr
+            ok &= step_ok
+        if unknown:
+            kf = None
+        dd = detail or {}
+        dd.update({"decisions": [o["decision"] for o in obs], "args": [o["args"] for o in obs]})
+        if detail is not None:
+            dd["sources"] = {f["path"]: C.render_rs(f) for f in d["files"]}
+        outs.append(Outcome(case, corr, ok, kf=kf, detail=dd, nontrivial=len(case["seq"]) > 1))
+    return outs
+
+
+def spelling_cases(tier, rng):
+    cli = [SP(), SP(force=True), SP(verbose=True), SP(vflag=True), SP(p="rel", o="rel"), SP(o="abs"), SP(o="bare"),
+           SP(p="bare"), SP(p="abs"), SP(src="tauri"), SP(src="tauri", force=True), SP(src="tauri", verbose=True),
+           SP(src="flags", p="rel", o="rel"), SP(src="flags", p="rel", o="abs", verbose=True), SP(forcefile=False),
+           SP(force=True, forcefile=False), SP(forcefile=True)]
+    cli_viz = cli + [SP(vizflag=True), SP(src="tauri", vizflag=True), SP(vizflag=True, force=True)]
+    build = [SP(), SP(force=True), SP(src="tauri"), SP(src="tauri", force=True), SP(p="bare"), SP(p="abs"), SP(o="abs"),
+             SP(o="bare"), SP(forcefile=False)]
+    cases = []
+
+    def add(entry, mode, viz, seq):
+        cases.append({"entry": entry, "mode": mode, "viz": viz, "seq": [dict(x) for x in seq]})
+    for a in cli:
+        for b in cli:
+            add("cli", "none", False, [a, b])
+    for a in cli_viz:
+        for b in cli_viz[-3:] + cli_viz[:3]:
+            add("cli", "none", True, [a, b])
+            add("cli", "none", True, [b, a])
+    for a in build:
+        for b in build:
+            add("build", "none", False, [a, b])
+            if tier == "thorough":
+                add("build", "zod", True, [a, b])
+    # [a; a differently flagged; a]: the unforced third run must touch nothing
+    mids_cli = [SP(force=True), SP(verbose=True), SP(vflag=True), SP(src="tauri", force=True), SP(force=True, forcefile=False), SP(o="abs")]
+    ends_cli = [SP(), SP(src="tauri"), SP(vflag=True), SP(src="flags", p="rel", o="rel")]
+    for a in ends_cli:
+        for b in mids_cli:
+            for c in ends_cli:
+                add("cli", "zod" if b["vflag"] else "none", False, [a, b, c])
+    for a in (SP(), SP(src="tauri")):
+        for b in (SP(force=True), SP(src="tauri", force=True), SP(forcefile=False)):
+            for c in (SP(), SP(src="tauri")):
+                add("build", "none", False, [a, b, c])
+    n = 60 if tier == "quick" else 600
+    for _ in range(n):
+        entry = rng.choice(["cli", "build"])
+        pool = build if entry == "build" else cli
+        add(entry, rng.choice(["none", "zod"]), False, [rng.choice(pool) for _ in range(rng.randint(3, 5))])
+    return cases
+
 # ---- case sets -------------------------------------------------------------------------------------------
 
 def witnesses():
@@ -286,8 +456,11 @@ def run(rep):
     build_all()
     rng = random.Random(rep.seed)
     from tools.props.c08 import regressions
-    nw = len(witnesses())
-    outs = eval_rerun(witnesses() + regressions("C14"))
+    allw = witnesses()
+    rep.add("corpus", eval_spelling([c for c in allw if "seq" in c]))
+    ws = [c for c in allw if "seq" not in c]
+    nw = len(ws)
+    outs = eval_rerun(ws + regressions("C14"))
     for o in outs[:nw]:
         rep.extra.setdefault("witness_replays", []).append(
             {"case": o.case, "reruns": o.detail["reruns"], "spurious_regenerations": o.detail["spurious_regenerations"],
@@ -305,6 +478,9 @@ def run(rep):
     rep.extra["rerun_distribution"] = dist
     rep.add("rerun", outs)
     rep.add("force", eval_force(force_cases(rep.tier)))
+    sc = spelling_cases(rep.tier, rng)
+    rep.extra["spelling_cases"] = {"total": len(sc), "by_length": {str(k): sum(1 for c in sc if len(c["seq"]) == k) for k in (2, 3, 4, 5)}}
+    rep.add("spelling", eval_spelling(sc))
 
 
 def replay(rep, payload):
@@ -314,6 +490,8 @@ def replay(rep, payload):
         c = dict(it["case"])
         if it["stream"] == "force":
             rep.add("force", eval_force([c]))
+        elif it["stream"] == "spelling":
+            rep.add("spelling", eval_spelling([c]))
         else:
             c["reruns"] = max(c.get("reruns", 3), 16)
             rep.add(it["stream"], eval_rerun([c]))
